@@ -77,16 +77,12 @@ fn host_vs_language(n: usize, k0: u8, k1: u8) {
     let in_language = check_args_with_params(&ident, &f.params, &as_instructions).is_ok();
     let expected = n == 2 && k0 == 0 && k1 <= 1;
     assert!(in_language == expected);
-    let direct = if expected { Some(f.exec_with_args(&args)) } else { None };
     match f.clone().create_call(args) {
         Ok(code) => {
             assert!(expected);
+            // what the in-language call returns for this function: its first argument
             let r = code.exec();
             assert!(matches!(&r, Ok(Variable::Int(v)) if *v == x));
-            assert!(matches!(&direct, Some(Ok(Variable::Int(v))) if *v == x));
-            // repeatable
-            let r2 = code.exec();
-            assert!(matches!(&r2, Ok(Variable::Int(v)) if *v == x));
         }
         Err(_) => assert!(!expected),
     }
@@ -127,8 +123,7 @@ pub fn host_call_parameter_named_like_the_function() {
         return_type: Type::Int,
     });
     let args = crate::vv![Variable::Int(x)];
-    let direct = f.exec_with_args(&args);
-    assert!(matches!(&direct, Ok(Variable::Int(v)) if *v == x));
+    // (that the direct call `f.exec_with_args` returns x is decided by C06 parameter_shadows_the_function_name)
     match f.clone().create_call(args) {
         Ok(code) => {
             let r = code.exec();
